@@ -31,3 +31,11 @@ NATIVE['n_c14_mutations'] = dict(
     bound='all single structured mutations (see unit) of 5 small valid programs in quick, 13 in thorough',
     functions=[('crates/cairo-lang-sierra-to-casm/src/compiler.rs', None, 'compile')],
 )
+NATIVE['n_c14_type_sizes'] = dict(
+    crate='cairo-lang-sierra-type-size',
+    host='crates/cairo-lang-sierra-type-size/src/lib.rs',
+    harness='native/cairo-lang-sierra-type-size/n_c14_type_sizes.rs',
+    props={'C14'},
+    bound='12 struct shapes at the i16 size boundary x {struct, enum}',
+    functions=[('crates/cairo-lang-sierra-type-size/src/lib.rs', None, 'get_type_size_map')],
+)
